@@ -10,7 +10,7 @@ theorem generateParams_impl {dyn : Bool} {deps : FnDeps} {a : List Attr} {pt : P
     (h : generateParams (if dyn then .dynamicImpl else .staticImpl) deps (.typed a pt ty :: rest) itrail = .ok (ins, tr)) :
     (dyn = false ∧ ins = implReceiverArg :: rest) ∨
     (dyn = true ∧ ∃ r, ins = .recv [] r false none :: implReceiverArg :: rest) := by
-  unfold generateParams at h
+  unfold generateParams rewriteFirst insertImplRecv at h
   cases dyn
   · left
     refine ⟨rfl, ?_⟩
@@ -23,9 +23,9 @@ theorem generateParams_impl {dyn : Bool} {deps : FnDeps} {a : List Attr} {pt : P
     cases deps with
     | noDeps => exact absurd rfl hne
     | generic q bs =>
-      cases ty <;> cases rest <;> simp [genFirstReceiver, selfReceiverArg, insertAt] at h <;> exact ⟨_, h.1.symm⟩
+      cases ty <;> cases rest <;> simp [genFirstReceiver, selfReceiverArg] at h <;> exact ⟨_, h.1.symm⟩
     | concrete cty =>
-      cases ty <;> cases rest <;> simp [genFirstReceiver, selfReceiverArg, insertAt] at h <;> exact ⟨_, h.1.symm⟩
+      cases ty <;> cases rest <;> simp [genFirstReceiver, selfReceiverArg] at h <;> exact ⟨_, h.1.symm⟩
 
 /-- the method generated for one function of an impl block -/
 structure ImplModeSpec (dyn : Bool) (sig : Sig) (tf : TraitFn) : Prop where
